@@ -22,21 +22,30 @@ from ..lib.impl import Raised, call
 LEVEL = "other"
 CLAIM = dict(
     category="other",
-    text="Proved (Lean, DarsiaProps.C10, all `_partial`): for the shared workflow BaseCorrection.__call__ and ANY pure "
-    "correct_array f, optional correct_array_series and declared metadata update g - copy mode leaves the input object "
-    "untouched and returns a new object of the same kind with data f(raw) and metadata = input's overridden by g; overwrite "
-    "mode returns the very same object with the same data and metadata; a series is corrected slice by slice (the whole-series "
-    "routine takes precedence when declared); arrays give f(array) for both flags; f = id leaves pixel data unchanged. The "
-    "workflow model is tied exactly to the real BaseCorrection.__call__ through a toy correction run on real images. "
-    "Only observed (not proved): that each concrete correction's correct_array is pure (no mutation / aliasing of its "
-    "argument, no history dependence) and that neutral parameters make it the identity on pixel values - searched over "
-    "type, rotation (2-D/3-D), translation, curvature, drift, colour (inactive and active on a synthetic checker), "
-    "illumination, transformation / affine / generalised-perspective corrections x input kinds x overwrite x shapes x dtypes.",
-    note="purity and aliasing of numpy / OpenCV / scipy code inside correct_array is runtime behaviour; it is observed on "
-    "generated inputs, not proved. The active ColorCorrection is compared at 1e-3 instead of exactly: its swatch extraction "
-    "uses cv2.kmeans with random centres (OpenCV's global RNG), so two calls on the same array differ by ~2e-5.",
-    technique="Lean 4 proof of the shared workflow + exact differential correspondence (toy correction on real images) + "
-    "property oracle over concrete corrections",
+    text="Proved (Lean, DarsiaProps.C10). (1) Shared workflow BaseCorrection.__call__ for ANY pure correct_array f, optional "
+    "correct_array_series and declared metadata update g (`_partial` theorems): copy mode leaves the input object untouched and "
+    "returns a new object of the same kind with data f(raw) and metadata = input's overridden by g; overwrite returns the very same "
+    "object with the same result; series are corrected slice by slice (whole-series routine takes precedence); arrays give f(array); "
+    "f = id leaves pixel data unchanged. (2) Concrete corrections whose array function is DarSIA's own index logic are modelled "
+    "themselves (DarsiaModel.Corrections) and for them purity (the result depends only on dtype, shape and the values inside the "
+    "box), neutrality and the series/copy/overwrite behaviour are theorems without that assumption: TypeCorrection between "
+    "uint8/uint16/float64 incl. skimage's data-dependent branch (type_pure, type_neutral, type_roundtrip_u8), whole-pixel and "
+    "inactive TranslationCorrection (trans_pure, trans_neutral, trans_is_shift, trans_inactive_identity), inactive DriftCorrection, "
+    "RotationCorrection's own warp clip(astype(int)(anchor + R_inv (v - anchor))) in 2-D and 3-D (rot2_pure, rot3_pure, rot2_neutral, "
+    "rot3_neutral; its quarter turns = np.rot90 are DarsiaProps.C09.rotcorr_quarter_turn_2d/3d), "
+    "TransformationCorrection (transf_pure, transf_neutral) and the transparency of its per-object cache over any call history "
+    "(transf_cache_transparent); concrete_workflow / concrete_neutral_series instantiate the workflow with these functions. Each "
+    "model is tied EXACTLY to the code on integer / dyadic payloads (RotationCorrection with exactly representable matrices set on "
+    "the object). Only observed (not proved): purity / neutrality of the remaining corrections (curvature: scipy map_coordinates, "
+    "colour, illumination, fitted affine / generalised perspective, float32 and general cv2.warpAffine translations), searched by "
+    "the oracle over configurations x input kinds x overwrite x shapes x dtypes.",
+    note="cv2.warpAffine is exact for whole-pixel translations and skimage img_as_* follow the modelled rules: contracts tied by "
+    "correspondence, not proved. RotationCorrection built from an ANGLE of pi/2 carries float noise (cos = 6e-17) on rounding "
+    "breakpoints, so the quarter-turn theorems are tied through exact matrices. The active ColorCorrection is compared at 1e-3 "
+    "instead of exactly: its swatch extraction uses cv2.kmeans with random centres (OpenCV's global RNG), so two calls on the same "
+    "array differ by ~2e-5.",
+    technique="Lean 4 proof of the shared workflow and of concrete correction models + exact differential correspondence (toy "
+    "correction and concrete corrections on real arrays / images) + property oracle over concrete corrections",
 )
 
 KINDS = ("array", "scalar", "optical", "series", "optical-series")
@@ -117,6 +126,208 @@ def corr_workflow(ctx, d):
     return ctx.correspond("BaseCorrection.__call__ workflow (toy correction on real images, exact)", lines, impl)
 
 
+
+# ---------------------------------------------------------------------------- round 2: concrete corrections vs model (exact)
+
+from fractions import Fraction as Fr  # noqa: E402
+
+from ..lib.core import fmt  # noqa: E402
+
+NPDT = {"u8": np.uint8, "u16": np.uint16, "f64": np.float64}
+DTN = {np.dtype(np.uint8): "u8", np.dtype(np.uint16): "u16", np.dtype(np.float64): "f64"}
+
+
+def arr_tokens(a):
+    return " ".join(str(n) for n in a.shape) + " " + " ".join(fmt(x) for x in a.ravel())
+
+
+def show_arr(a):
+    a = np.asarray(a)
+    if a.dtype not in DTN:
+        return f"!dtype {a.dtype}"
+    return f"{DTN[a.dtype]} " + " ".join(str(n) for n in a.shape) + " | " + " ".join(fmt(x) for x in a.ravel())
+
+
+def rand_payload(rng, dt, shape):
+    n = int(np.prod(shape))
+    if dt == "u8":
+        vals = [rng.choice([0, 1, 2, 127, 128, 254, 255, rng.randint(0, 255)]) for _ in range(n)]
+    elif dt == "u16":
+        small = rng.random() < 0.4  # exercise skimage's "fits without scaling" branch
+        vals = [rng.randint(0, 255) if small else rng.choice([0, 255, 256, 257, 65535, rng.randint(0, 65535)]) for _ in range(n)]
+    else:
+        vals = [Fr(rng.randint(-64, 64), 64) for _ in range(n)]
+    return np.array([float(v) if dt == "f64" else int(v) for v in vals], dtype=NPDT[dt]).reshape(shape)
+
+
+def compare_lines(ctx, name, lines, impl, float_rel=0.0):
+    """textual comparison; with float_rel > 0 numeric tokens may differ relatively by float_rel (model rational vs float)"""
+    got = ctx.model(lines)
+    diffs = []
+    worst = 0.0
+    for i, (g, v) in enumerate(zip(got, impl)):
+        if g.strip() == str(v).strip():
+            continue
+        gt, vt = g.split(), str(v).split()
+        ok = float_rel > 0 and len(gt) == len(vt)
+        if ok:
+            for a, b in zip(gt, vt):
+                if a == b:
+                    continue
+                try:
+                    fa, fb = Fr(a), Fr(b)
+                except (ValueError, ZeroDivisionError):
+                    ok = False
+                    break
+                rel = abs(float(fa - fb)) / max(abs(float(fa)), 1e-300)
+                worst = max(worst, rel)
+                if rel > float_rel:
+                    ok = False
+                    break
+        if not ok:
+            diffs.append(i)
+    c = ctx.cov.setdefault("correspondence", {})
+    c[name] = {"cases": len(lines), "disagreements": len(diffs)}
+    if float_rel:
+        ctx.cov.setdefault("measured_float_error", {})[name] = worst
+    for l in lines:
+        ctx.count((name, l))
+    if lines:
+        ctx.sample({"corr": name, "request": lines[0][:300], "model": got[0][:300], "impl": str(impl[0])[:300]})
+    if diffs:
+        i = min(diffs, key=lambda k: len(lines[k]))
+        ctx.mark("CORR-BROKEN", {"correspondence": name, "request": lines[i], "model": got[i], "impl": str(impl[i]), "n_diffs": len(diffs)})
+        ctx.log(f"correspondence {name}: {len(diffs)} disagreements, e.g. {lines[i][:200]} model={got[i][:160]} impl={str(impl[i])[:160]}")
+    return diffs
+
+
+QUARTER2 = [[[1, 0], [0, 1]], [[0, 1], [-1, 0]], [[-1, 0], [0, -1]], [[0, -1], [1, 0]]]
+
+
+def corr_concrete(ctx, d):
+    rng = ctx.rng
+    # --- TypeCorrection
+    lines, impl = [], []
+    targets = {"u8": np.uint8, "u16": np.uint16, "f64": np.float64}
+    for i in range(ctx.pick(40, 400)):
+        src = ["u8", "u16", "f64"][i % 3]
+        tgt = ["u8", "u16", "f64"][(i // 3) % 3]
+        shape = (rng.randint(1, 3), rng.randint(1, 4))
+        a = rand_payload(rng, src, shape)
+        if src == "f64" and i % 10 == 9:
+            a[0, 0] = rng.choice([1.5, -1.25, 2.0])  # out of range: ValueError for integer targets
+        lines.append(f"type {tgt} {src} {arr_tokens(a)}")
+        tcls = float if (tgt == "f64" and i % 2) else targets[tgt]
+        r = call(lambda: d.TypeCorrection(tcls).correct_array(a.copy()))
+        impl.append(repr(r) if isinstance(r, Raised) else show_arr(r))
+    compare_lines(ctx, "TypeCorrection.correct_array (u8/u16/f64, exact; int->float within 4 ulp)", lines, impl, float_rel=2.0 ** -50)
+    # --- TranslationCorrection, whole pixels (cv2.warpAffine) and inactive; DriftCorrection inactive
+    lines, impl = [], []
+    for i in range(ctx.pick(30, 300)):
+        dt = ["u8", "u16", "f64"][i % 3]
+        shape = (rng.randint(1, 5), rng.randint(1, 5))
+        a = rand_payload(rng, dt, shape)
+        active = i % 7 != 0
+        tx, ty = rng.randint(-shape[1] - 1, shape[1] + 1), rng.randint(-shape[0] - 1, shape[0] + 1)
+        lines.append(f"trans {int(active)} {tx} {ty} {dt} {arr_tokens(a)}")
+
+        def run():
+            if not active:
+                c = d.TranslationCorrection(None)
+            else:
+                fd, path = tempfile.mkstemp(suffix=".npy")
+                os.close(fd)
+                try:
+                    np.save(path, np.array([[1, 0, tx], [0, 1, ty]], dtype=np.float64))
+                    c = d.TranslationCorrection(path)
+                finally:
+                    os.remove(path)
+            return c.correct_array(a.copy())
+
+        r = call(run)
+        impl.append(repr(r) if isinstance(r, Raised) else show_arr(r))
+        if i % 5 == 0:
+            lines.append(f"drift {dt} {arr_tokens(a)}")
+            r = call(lambda: d.DriftCorrection(base=np.zeros(shape), config={"active": False}).correct_array(a.copy()))
+            impl.append(repr(r) if isinstance(r, Raised) else show_arr(r))
+    compare_lines(ctx, "TranslationCorrection (whole pixels / inactive), DriftCorrection (inactive), exact", lines, impl)
+    # --- RotationCorrection warp with exactly representable matrices (quarter turns and dyadic matrices)
+    lines, impl = [], []
+    for i in range(ctx.pick(40, 400)):
+        dt = ["u8", "u16", "f64"][i % 3]
+        if i % 2 == 0:
+            shape = (rng.randint(1, 5), rng.randint(1, 5))
+            if i % 4 == 0:
+                m = rng.randint(0, 2)
+                shape = (2 * m + 1, 2 * m + 1)
+                anchor = [Fr(m), Fr(m)]
+            else:
+                anchor = [Fr(rng.randint(-2, 8), 2), Fr(rng.randint(-2, 8), 2)]
+            R = QUARTER2[rng.randrange(4)] if i % 6 else [[Fr(rng.randint(-8, 8), 4) for _ in range(2)] for _ in range(2)]
+            a = rand_payload(rng, dt, shape)
+            lines.append(f"rot2 {fmt(anchor[0])} {fmt(anchor[1])} " + " ".join(fmt(x) for r in R for x in r) + f" {dt} {arr_tokens(a)}")
+
+            def run():
+                c = d.RotationCorrection(anchor=[float(x) for x in anchor], rotations=[0.0])
+                c.rotation_inv = np.array([[float(x) for x in r] for r in R])
+                return c.correct_array(a.copy())
+        else:
+            m = rng.randint(0, 1)
+            shape = (2 * m + 1,) * 3 if i % 4 == 1 else (rng.randint(1, 3), rng.randint(1, 3), rng.randint(1, 3))
+            anchor = [Fr(m)] * 3 if i % 4 == 1 else [Fr(rng.randint(-2, 6), 2) for _ in range(3)]
+            k = rng.randrange(3)
+            sgn = rng.choice([1, -1])
+            E = {0: [[1, 0, 0], [0, 0, sgn], [0, -sgn, 0]], 1: [[0, 0, -sgn], [0, 1, 0], [sgn, 0, 0]], 2: [[0, sgn, 0], [-sgn, 0, 0], [0, 0, 1]]}[k]
+            R = E if i % 6 else [[Fr(rng.randint(-8, 8), 4) for _ in range(3)] for _ in range(3)]
+            a = rand_payload(rng, dt, shape)
+            lines.append("rot3 " + " ".join(fmt(x) for x in anchor) + " " + " ".join(fmt(x) for r in R for x in r) + f" {dt} {arr_tokens(a)}")
+
+            def run():
+                c = d.RotationCorrection(anchor=[float(x) for x in anchor], rotations=[(0.0, "x")])
+                c.rotation_inv = np.array([[float(x) for x in r] for r in R])
+                return c.correct_array(a.copy())
+
+        r = call(run)
+        impl.append(repr(r) if isinstance(r, Raised) else show_arr(r))
+    compare_lines(ctx, "RotationCorrection.correct_array (exact matrices: quarter turns, dyadic), 2-D/3-D, exact", lines, impl)
+    # --- TransformationCorrection with its cache: a history of calls on ONE object
+    rnd = "floor" if int(np.asarray(d.Voxel(np.array([-0.5])))[0]) == -1 else "trunc"
+    lines, impl = [], []
+    for i in range(ctx.pick(15, 150)):
+        mode = ("coord", "voxel", "center")[i % 3]
+        sshape = (rng.randint(1, 4), rng.randint(1, 4))
+        dshape = sshape if i % 2 else (rng.randint(1, 4), rng.randint(1, 4))
+        hs, hd = Fr(1, rng.choice([1, 2])), Fr(1, rng.choice([1, 2]))
+        t = [Fr(rng.randint(-6, 6), 2), Fr(rng.randint(-6, 6), 2)]
+        dt = ["u8", "u16", "f64"][i % 3]
+        hist = [rand_payload(rng, dt, sshape) for _ in range(rng.randint(0, 3))]
+        a = rand_payload(rng, dt, sshape)
+
+        def run():
+            src = d.Image(np.zeros(sshape), dimensions=[float(n * hs) for n in sshape])
+            dst = d.Image(np.zeros(dshape), dimensions=[float(n * hd) for n in dshape])
+            T = d.AffineTransformation(2)
+            mk = {"coord": d.make_coordinate, "voxel": d.make_voxel, "center": d.make_voxel_center}[mode]
+            pts = mk(np.zeros((2, 2)))
+            T.set_dtype(pts, pts)
+            T.set_parameters(np.array([float(x) for x in t]), 1.0, None)
+            c = d.TransformationCorrection(src.coordinatesystem, dst.coordinatesystem, T)
+            for hh in hist:
+                c.correct_array(hh.copy())
+            csl = lambda im: (" ".join(str(n) for n in im.img.shape) + " " + " ".join(fmt(o) for o in im.origin) + " "  # noqa: E731
+                              + " ".join(fmt(v) for v in im.voxel_size))
+            return (csl(src), csl(dst)), c.correct_array(a.copy())
+
+        r = call(run)
+        if isinstance(r, Raised):
+            continue
+        (cs_s, cs_d), out = r
+        lines.append(f"transfrun {rnd} {mode} {cs_s} {cs_d} {fmt(t[0])} {fmt(t[1])} 1 0 {len(hist)} "
+                     + " ".join(f"{dt} {arr_tokens(hh)}" for hh in hist) + f" {dt} {arr_tokens(a)}")
+        impl.append(show_arr(out))
+    compare_lines(ctx, "TransformationCorrection with call history on one object (cache), exact", lines, impl)
+
+
 # ---------------------------------------------------------------------------- concrete corrections
 
 
@@ -143,13 +354,13 @@ def configs(d, rng):
     regs = []
 
     def reg(name, build, kinds=KINDS, dtypes=("float64", "uint8", "float32", "uint16", "int64"), neutral=False,
-            conv=None, dims=2, channels=(None, 3), min_extent=1, fixed_shape=None, tol=0.0):
-        regs.append(dict(name=name, build=build, kinds=kinds, dtypes=dtypes, neutral=neutral, conv=conv, dims=dims, tol=tol,
+            conv=None, dims=2, channels=(None, 3), min_extent=1, fixed_shape=None, tol=0.0, out_dtype=None):
+        regs.append(dict(out_dtype=out_dtype, name=name, build=build, kinds=kinds, dtypes=dtypes, neutral=neutral, conv=conv, dims=dims, tol=tol,
                          channels=channels, min_extent=min_extent, fixed_shape=fixed_shape))
 
     # --- type
     for dt, nm in ((np.float64, "float64"), (np.float32, "float32"), (np.uint8, "uint8"), (np.uint16, "uint16"), (float, "float")):
-        reg(f"type({nm})", lambda info, dt=dt: d.TypeCorrection(dt), dtypes=("float64", "uint8", "float32", "uint16"))
+        reg(f"type({nm})", lambda info, dt=dt: d.TypeCorrection(dt), dtypes=("float64", "uint8", "float32", "uint16"), out_dtype=("floating" if dt is float else np.dtype(dt)))
     reg("type(neutral)", lambda info: d.TypeCorrection({"float64": np.float64, "float32": np.float32, "uint8": np.uint8,
                                                         "uint16": np.uint16}[info["dtype"]]),
         dtypes=("float64", "uint8", "float32", "uint16"), neutral=True)
@@ -407,6 +618,10 @@ def check_case(d, case, cfgs=None, rngmod=None):
     else:
         if not (out.dtype == exp.dtype and data_equal(out, exp, cfg['tol'])):
             bad.append((f"{sig0}:data≠correct_array(raw)", f"result data {out.dtype}{out.shape} differs from correct_array(raw) {exp.dtype}{exp.shape}"))
+    # --- declared result dtype (TypeCorrection: the requested type)
+    od = cfg.get("out_dtype")
+    if od is not None and (out.dtype.kind != "f" if isinstance(od, str) else out.dtype != od):
+        bad.append((f"C10:{name}:{kind}:declared-dtype", f"result dtype {out.dtype}, declared {cfg['out_dtype']}"))
     # --- metadata
     if is_img:
         expect = copy.deepcopy(snap_meta)
@@ -476,6 +691,7 @@ def run(ctx):
                 ctx.fail(sig, what, {"case": case, "observed": what})
     ctx.prove("C10")
     corr_workflow(ctx, d)
+    corr_concrete(ctx, d)
     oracle(ctx, d)
     ctx.cov["explanation"] = CLAIM["text"]
     ctx.cov["rule"] = ("every registered correction configuration x supported input kinds x overwrite off/on x (quick 1 / thorough 6) random "
